@@ -3,6 +3,7 @@ package main
 // Translation of contract expressions to SMT terms.
 
 import (
+	"golang.org/x/tools/go/ssa"
 	"fmt"
 	"runtime/debug"
 	"go/types"
@@ -592,6 +593,36 @@ func (sc *Scope) call(e *SExpr) Term {
 	case "ifaceTag":
 		t := sc.eval(e.Args[0])
 		return FieldOf(t, 0)
+	case "method": // method(x, Name): the result of the parameterless interface method Name on x (a pure function of x)
+		t := sc.eval(e.Args[0])
+		return ifaceGetter(vc, e.Args[1].Name, t, SStr)
+	case "toLower":
+		vc.DeclareFun("str_toLower", []*Sort{SStr}, SStr)
+		return App(SStr, "str_toLower", sc.eval(e.Args[0]))
+	case "parseUint":
+		vc.DeclareFun("str_parseUint", []*Sort{SStr}, SInt)
+		return App(SInt, "str_parseUint", sc.eval(e.Args[0]))
+	case "parseUintOK":
+		vc.DeclareFun("str_parseUintOK", []*Sort{SStr}, SBool)
+		return App(SBool, "str_parseUintOK", sc.eval(e.Args[0]))
+	case "global": // global(name): the package-level variable of that name in the package of the function under verification
+		name := e.Args[0].Name
+		if sc.ex.topFn != nil {
+			pkgs := []*ssa.Package{sc.ex.topFn.Pkg}
+			for _, pk := range sc.ex.P.prog.AllPackages() {
+				pkgs = append(pkgs, pk)
+			}
+			for _, pk := range pkgs {
+				if pk == nil {
+					continue
+				}
+				if g, ok := pk.Members[name].(*ssa.Global); ok && inModulePath(pk.Pkg.Path()) {
+					c := sc.ex.globalCell(g)
+					return sc.ex.cellValue(sc.st, c)
+				}
+			}
+		}
+		sc.errorf(e, "no package variable %q", name)
 	case "typeIs": // typeIs(err, "pkg.Type")
 		t := sc.eval(e.Args[0])
 		name := e.Args[1].Name
@@ -981,3 +1012,12 @@ func (p *Program) lookupStructFn() func(string) types.Type {
 		return nil
 	}
 }
+
+// ifaceGetter: parameterless interface methods with one basic result are modelled as pure functions of the receiver.
+func ifaceGetter(vc *VC, method string, recv Term, res *Sort) Term {
+	fn := "im_" + sanitize(method) + "_" + sanitize(res.Name)
+	vc.DeclareFun(fn, []*Sort{vc.IfaceSort()}, res)
+	return App(res, fn, recv)
+}
+
+func inModulePath(p string) bool { return p == modulePath || strings.HasPrefix(p, modulePath+"/") }
